@@ -209,7 +209,7 @@ pub struct Mutation {
 }
 
 /// One actor choice of the explicit schedule.
-#[derive(Serialize, Deserialize, Clone, Copy, Debug, PartialEq, Eq)]
+#[derive(Serialize, Deserialize, Clone, Debug, PartialEq, Eq)]
 pub enum Step {
     /// `next()` on walker `i`
     W(usize),
@@ -218,6 +218,9 @@ pub enum Step {
     /// drop walker `i` without exhausting it (the consumer lost interest: cancellation at an
     /// arbitrary instant)
     D(usize),
+    /// change the working directory of the process to this world directory (only in scenarios whose
+    /// walkers all have absolute bases: nothing they do may depend on it)
+    Cd(String),
 }
 
 /// A fault placed *inside* an operation: when a `filter_entry` closure of walker `w` is shown the
@@ -247,6 +250,10 @@ pub struct Scenario {
     pub schedule: Vec<Step>,
     #[serde(default, skip_serializing_if = "Vec::is_empty")]
     pub triggers: Vec<Trigger>,
+    /// Walkers are constructed lazily, at their first scheduled step (so that one walk can be
+    /// constructed after another was abandoned), instead of all up front.
+    #[serde(default)]
+    pub lazy: bool,
 }
 
 pub fn join(a: &str, b: &str) -> String {
